@@ -616,7 +616,8 @@ pub fn classify(md: &str, _o: &Opts, p: &Parsed, _clause: &str, kind: &str, sp: 
     }
 
     // thematic break inside a container that strips a prefix
-    if kind == "thematic_break" && kinds.iter().skip(1).any(|k| is_container(k)) {
+    // (an indented `>>>` fence also strips up to `fence_offset` spaces from the lines of its content)
+    if kind == "thematic_break" && kinds.iter().skip(1).any(|k| is_container(k) || *k == "multiline_block_quote") {
         return "thematic_break/inside-prefixed-container".into();
     }
 
